@@ -1,4 +1,4 @@
-import DcmVerif.Props.SourceStack
+import DcmVerif.Props.Source_stack
 import DcmVerif.Props.C11_add
 import DcmVerif.Proofs.Grid
 import DcmVerif.Proofs.Guess
